@@ -599,9 +599,25 @@ def lookback_rule(ctx, R, ea, methods):
         loc = {'self': self_}
         try:
             ev = Evaluator({})
-            for a in walk_no_nested(fn):
-                if isinstance(a, ast.Assign) and len(a.targets) == 1 and isinstance(a.targets[0], ast.Name) and a.targets[0].id in names:
-                    ev.exec_stmts([a], loc)
+            # the assignments the bound is computed from, with the locals those read in turn (in source order)
+            need_names = set(names)
+            assigns_ = [a for a in walk_no_nested(fn) if isinstance(a, ast.Assign) and len(a.targets) == 1 and isinstance(a.targets[0], ast.Name)]
+            grew = True
+            while grew:
+                grew = False
+                for a in assigns_:
+                    if a.targets[0].id in need_names:
+                        for x in ast.walk(a.value):
+                            if isinstance(x, ast.Name) and x.id not in need_names and any(b.targets[0].id == x.id for b in assigns_):
+                                need_names.add(x.id)
+                                grew = True
+            for a in sorted(assigns_, key=lambda a_: a_.lineno):
+                if a.targets[0].id in need_names:
+                    try:
+                        ev.exec_stmts([a], loc)
+                    except NotConst:
+                        if a.targets[0].id in names:
+                            raise
             k = -ev.ev(low, loc)
         except NotConst as e:
             raise AnalysisError('get_mem_overlapping: the look-back bound is outside the evaluable subset: %s' % e)
